@@ -56,6 +56,19 @@ CHECKS = {
              'processes; all must agree byte for byte (sha256) and every reported hash must be the md5 of the contents; '
              'exploration.',
         note=TRUST_PY, design='C08'),
+    'C09': dict(
+        technique='generated-input search (models x configurations x origin) on the compiled shell with exhaustive enumeration of the 16 locator contents; object-identity / service-map oracle, ASan, detection idiom for Locator()',
+        text='For every compiled shell all 16 presence/absence combinations of dispatcher, runtime and two other services in '
+             'the user locator are run (two shell instances each); constructor outcome, locator identity and contents seen '
+             'by the mock component, dispatcher identity and the unmodified prototype are compared with the statement.',
+        note=TRUST_CXX, design='C09'),
+    'C10': dict(
+        technique='single-omission fault enumeration on the compiled shell over Hypothesis-generated models and configurations',
+        level='fault_enumeration',
+        text='Per compiled model every single unbound event (user side, per registered client, component side) is tried in '
+             'its own run; final construction must throw dzn::binding_error, and must succeed and record the parent when '
+             'nothing is omitted; late client registration must be refused.',
+        note=TRUST_CXX, design='C10'),
     'C12': dict(
         technique='model-based generation of build histories (operation sequences) with snapshot invariants and a differential against a fresh interpreter per build; failing histories delta-debugged',
         text='Sequences of builds over shared parsed models with valid and invalid configurations and kept/fresh builders; '
